@@ -98,6 +98,50 @@ PROPS = {
         streams=[("wfault", 1100, 20000), ("w", 300, 4000)],
         assumptions=[ASSUME_FLATE],
     ),
+    "C12": P(
+        technique="Lean 4 theorems over the decision function of Upgrade + decide over the regenerated rejection chain + differential correspondence with grammar-level oracles",
+        level_text="Proof: Upgrade succeeds iff every condition of the chain holds; 403 exactly for the origin, 426 (with the Connection token present) exactly for a missing Upgrade token; compression is announced iff enabled and an extension named permessage-deflate was offered; the selected subprotocol was offered and is supported; whatever bytes the application supplies as header values or subprotocol the 101 has exactly the expected lines (no_injection, incl. the F5 fix); Accept = base64(SHA-1(key++GUID)) with the GUID of today's source (RFC vector checked in the kernel); the rejection chain recognised in today's Upgrade is the modelled one. Tie: handshakes from the grammar (OWS, case, extra tokens, several lines, near-miss tokens, malformed lists, keys of many decoded lengths, offers with parameters and quoted strings), all Upgrader settings, response headers with control bytes; model predicts status / 101 lines / reader and buffer choice exactly; oracle judges with an independent list grammar, SHA-1 and line splitter.",
+        level_note="net/http (hijack, http.Error) and url.Parse are environment; header *names* supplied by the application are outside the property; on non-well-formed token lists only soundness is claimed.",
+        lean=["WS.Props.C12"],
+        streams=[("srv", 1500, 30000), ("unit", 300, 6000)],
+    ),
+    "C13": P(
+        technique="Lean 4 theorem (full characterisation of the folding comparison, all byte strings) + differential correspondence",
+        level_text="Proof: equalASCIIFold accepts exactly the byte strings equal after byte-wise ASCII lower-casing, for all byte strings (so: same length, no extra label, no prefix/suffix look-alike, no non-ASCII byte folds to ASCII; U+212A / U+017F are refused; invalid UTF-8 bytes are distinguished: sentinel for F7); the default policy accepts iff no Origin or the parsed origin host folds to Host; today's checkSameOrigin / equalASCIIFold statements are the modelled ones. Tie: (Host, Origin) pairs from case variants, one-character edits, labels added/removed, ports, userinfo tricks, IPv6 literals, Unicode look-alikes, invalid UTF-8, junk; 101 vs 403 compared; independent RFC 3986 authority splitter as oracle.",
+        level_note="url.Parse is environment (its Host result is an input of the model and recomputed by the harness).",
+        lean=["WS.Props.C13"],
+        streams=[("origin", 1500, 30000), ("unit", 300, 6000)],
+    ),
+    "C14": P(
+        technique="Lean 4 theorems over the reply decision and request assembly + decide over regenerated check lists + differential correspondence",
+        level_text="Proof: the reply is accepted iff status 101, Upgrade/Connection tokens and Accept = digest of the key sent in this request (and an acceptable compression answer); an Accept computed for another key is refused; non-ws/wss schemes and userinfo are refused before anything is assembled; a caller header naming a protocol-owned header (any capitalisation, F9 fix) is refused; the disjuncts of today's DialContext are the modelled ones. Tie: scripted servers with status/header/Accept/body variations, URLs, Dialer settings, caller header maps; request bytes parsed by an independent splitter and compared with the model's header set; reply decision compared.",
+        level_note="http.Request.Write, http.ReadResponse, url.Parse and crypto/rand are environment (parsed reply and observed key are inputs).",
+        lean=["WS.Props.C14"],
+        streams=[("cli", 1500, 30000)],
+    ),
+    "C15": P(
+        technique="Lean 4 theorems + decide over the literals regenerated from client.go/server.go + exhaustive 2x2 correspondence with message exchange",
+        level_text="Proof: server compresses iff enabled and permessage-deflate offered; client compresses iff the reply carries it (both parameters required, else Dial fails: C14.dial_iff); the offer literal of today's Dialer makes an enabled Upgrader compress and the announcement literal of today's Upgrader is accepted by the Dialer (decide over regenerated literals); RSV1 is a violation exactly when not negotiated. Tie: all four (Dialer, Upgrader) settings through a real handshake of the two in-process, then messages in both directions with random EnableWriteCompression / SetCompressionLevel toggles; offer and reply variants in the srv / cli streams.",
+        level_note="flate is environment; toggling safety beyond the exchanged messages rests on C02 (each message is plain or RSV1+deflate) and C03.",
+        lean=["WS.Props.C15"],
+        streams=[("nego", 200, 4000), ("srv", 400, 8000), ("cli", 400, 8000), ("pair", 150, 3000)],
+        assumptions=[ASSUME_FLATE],
+    ),
+    "C16": P(
+        technique="Lean 4 theorems over the handshake plan machine + exhaustive fault enumeration by differential correspondence",
+        level_text="Proof over the plan machine (direct dial, plain HTTP CONNECT proxy, Upgrade after hijack; with/without timeout): whichever operation fails no Conn is returned and the net.Conn is closed, with the close the last operation; on success the Conn is open and the last deadline operation sets the zero time; with a timeout the first client operation arms the deadline. Tie/fault enumeration (exhaustive over the 6 configurations x every operation x {error, timeout, EOF}): the real Dial / Upgrade run over a scripted net.Conn that records every call; the recorded operation sequence must equal the model's plan in the fault-free run and in every faulted run; non-200 and malformed CONNECT replies abort the dial (F6 regression).",
+        level_note="Partial: operations inside crypto/tls and the SOCKS5 client are observed in C18's matrix, not modelled; that a context deadline interrupts a TLS handshake is the Go runtime's.",
+        lean=["WS.Props.C16"],
+        streams=[("hsfault", 6, 6), ("matrix", 60, 400)],
+    ),
+    "C17": P(
+        technique="Lean 4 theorem over brNetConn (all read-size sequences) composed with the bufio stream law + split enumeration by differential correspondence",
+        level_text="Proof: for every buffered prefix and every sequence of read sizes brNetConn serves exactly the buffered bytes, in order, never more than buffered or asked for, and switches to the socket exactly when the buffer is empty; Upgrade's choice of reader covers all cases (reuse / wrap / nothing buffered); with C03's stream law the Conn's source is buffered ++ socket. Tie: frame streams split at random k between a hijacked bufio.Reader (sizes 16/256/257/4096) and the socket, ReadBufferSize in {0,1,255,256,4096}, random socket chunkings; client: '101 + frames' in every chunking with the connection's own bufio consuming the header block line by line (modelled); delivered messages compared exactly.",
+        level_note="http.ReadResponse's consumption is modelled as line-wise ReadSlice; net/http's own buffering before the hijack is environment.",
+        lean=["WS.Props.C17"],
+        streams=[("glue", 1500, 30000)],
+        assumptions=[ASSUME_BUFIO],
+    ),
     "C20": P(
         technique="Lean 4 invariant proof over all write programs and fault scripts + differential correspondence with a poisoning pool",
         level_text="Proof: for every program (invalid requests, abandoned writers) and every transport fault script on a pooled connection, Get/Put are balanced, a buffer is held only while a message writer is live, at most one writer is live, nothing is held between messages and no nil buffer is ever put back. Tie: instrumented LIFO pool shared by 1-4 connections that poisons buffers on Put and checks the poison on Get; Get/Put log (with buffer identities) compared with the model exactly; wire of every sharing connection judged by the RFC decoder.",
